@@ -535,9 +535,17 @@ fn open_follow_body(is_link: u8) {
     let trailing = end < len && (end > 0 || len > 1);
     let stripped: &[u8] = if only_slashes { &buf[..1] } else if end == 0 { &buf[..len] } else { &buf[..end] };
     let want_flags = (if trailing { bits | libc::O_DIRECTORY } else { bits }) as u32 as u64;
+    let nfollow = k.count(C_OPENAT);
+    let creation = bits & (libc::O_CREAT | libc::O_EXCL) != 0 || bits & libc::O_TMPFILE == libc::O_TMPFILE;
+    if creation {
+        // creation flags are refused before anything is looked up or followed
+        assert!(!ok && kind == Some(ErrorKind::InvalidArgument), "open_follow must refuse creation flags");
+        assert!(k.ncalls == 0 && nfollow == 0, "creation flags reached a lookup");
+        kani::cover!(true, "creation flags refused");
+        return;
+    }
     assert!(k.ncalls >= 1 && k.log[0].kind == C_READLINKAT);
     assert!(bytes_eq(&k.log[0].name, k.log[0].name_len, stripped, stripped.len()));
-    let nfollow = k.count(C_OPENAT);
     if is_link == P_FAIL {
         // not a link (or not readable as one): a plain no-follow open of the same path
         assert!(nfollow == 0, "followed something that is not a link");
